@@ -36,7 +36,7 @@ def caps_of(expr: ast.AST) -> Set[str]:
     return out
 
 
-def run(repo: Repo, ctx) -> None:
+def _run_main(repo: Repo, ctx) -> None:
     ctx.explanation = (
         'Decides for the server compiler: R1 the isinstance dispatch of '
         '_compile_dispatch_ql, abstractly evaluated over the whole qlast '
@@ -491,3 +491,135 @@ def _query_branch_ok(body, nm: str):
         and isinstance(augs[0].op, ast.BitOr)
     return ok, ('caps |= MODIFICATIONS under has_dml' if ok else
                 'no `caps |= MODIFICATIONS` in the branch')
+
+
+def run(repo: Repo, ctx) -> None:
+    _run_main(repo, ctx)
+    _r5(repo, ctx)
+
+
+VOL = 'edb.edgeql.compiler.inference.volatility'
+# (handler, field): mandatory children whose volatility does not reach the
+# result on some path today -- audited
+VOL_CHILD_OK = {
+    ('__infer_set', 'expr'):
+        'a set that is a known singleton path is IMMUTABLE by definition; '
+        'its expression was inferred where the singleton was bound',
+}
+
+
+def _r5(repo: Repo, ctx) -> None:
+    from .. import visitors as V
+    from ..absint import Facts, must_pass
+    ctx.floor('C08.R5', 12)
+    # (a) the volatility of a node covers every mandatory child on every
+    #     path (an effect in any operand is an effect of the whole)
+    reg = V.singledispatch_registry(repo, VOL, '_infer_volatility_inner')
+    if len(reg) < 15:
+        raise AnalysisError('C08.R5: volatility registry not found')
+    for q, h in sorted(reg.items()):
+        if q not in repo.classes:
+            continue
+        ctx.saw(h)
+        p0 = h.params()[0]
+        g = CFG(h.node)
+        rets = [r for r in ast.walk(h.node) if isinstance(r, ast.Return)]
+        # a handler returning a constant classification has no children to
+        # combine (VOLATILE for config commands, IMMUTABLE for constants)
+        fields = repo.class_fields(q)
+        for f_, (_own, ann) in sorted(fields.items()):
+            a = norm(ann.annotation)
+            if not any(t in a for t in ('Set', 'Base', 'Expr', 'Stmt')) or \
+                    'Optional' in a or 'List' in a or 'Dict' in a or \
+                    'Sequence' in a or 'Tuple' in a or 'Mapping' in a:
+                continue
+            uses = [n.id for n in g.nodes if n.ast is not None and any(
+                isinstance(c, ast.Call) and any(
+                    norm(x) == f'{p0}.{f_}' or norm(x).startswith(
+                        f'{p0}.{f_}.') for arg in list(c.args) + [
+                        k.value for k in c.keywords] for x in ast.walk(arg))
+                and 'volatility' in (call_name(c) or '')
+                for e in g.node_exprs(n) for c in ast.walk(e))]
+            if not uses:
+                continue          # the handler does not combine this child
+            F = Facts({f'{p0}.{f_} is not None': True, f'{p0}.{f_}': True},
+                      h.node)
+            ok = must_pass(g, F, uses)
+            key = (h.name, f_)
+            if not ok and key in VOL_CHILD_OK:
+                ctx.ob('C08.R5', f'{h.name}:{f_}', True, loc=h.loc,
+                       sample='audited: ' + VOL_CHILD_OK[key],
+                       nontrivial=False)
+                continue
+            ctx.ob('C08.R5', f'{h.name}:{f_}', ok,
+                   f'{h.name} combines the volatility of {p0}.{f_} on some '
+                   f'paths only: an expression whose {f_} deletes or '
+                   f'inserts can be inferred Stable/Immutable, so a '
+                   f'function built on it is stored with the wrong '
+                   f'volatility and calls to it are compiled without the '
+                   f'MODIFICATIONS capability', h.loc,
+                   sample=f'every path infers {p0}.{f_}')
+    # (b) altering only the volatility of a function re-checks its body
+    ca = repo.func('edb.schema.functions.FunctionCommand.'
+                   'canonicalize_attributes')
+    ctx.saw(ca)
+    sets = [c for c in ast.walk(ca.node) if isinstance(c, ast.Call)
+            and norm(c.func) == 'self.set_attribute_value' and c.args
+            and norm(c.args[0]) == "'nativecode'"]
+    if len(sets) != 1 or len(sets[0].args) < 2:
+        raise AnalysisError('C08.R5: nativecode re-injection of '
+                            'canonicalize_attributes not found')
+    v = norm(sets[0].args[1])
+    ctx.ob('C08.R5', 'canonicalize_attributes:body-recompiled',
+           v.endswith('.not_compiled()'),
+           f'ALTER FUNCTION ... SET volatility re-injects the body as `{v}`: '
+           f'an already compiled expression is not compiled again, so the '
+           f'check of the body against the new volatility is skipped and a '
+           f'deleting function can be declared Volatile/Stable (calls then '
+           f'lack MODIFICATIONS)', ca.loc, sample=v)
+    # (c) a migration command that compiles a transaction statement
+    #     reports that statement's action
+    DDLM = 'edb.server.compiler.ddl'
+    n = 0
+    for f in repo._funcs_of(repo.module(DDLM)):
+        g = CFG(f.node)
+        for node in g.nodes:
+            if node.kind != 'stmt' or not isinstance(node.ast, ast.Assign):
+                continue
+            v = node.ast.value
+            if not (isinstance(v, ast.Call) and norm(v.func).endswith(
+                    '_compile_ql_transaction')):
+                continue
+            var = norm(node.ast.targets[0])
+            n += 1
+            ctx.saw(f)
+            reach = g.reachable([node.id])
+            ctors = [k for k in g.nodes if k.id in reach and any(
+                kwarg(c, 'tx_action') is not None
+                for c in g.node_calls(k))]
+            ok = bool(ctors)
+            for k in ctors:
+                for c in g.node_calls(k):
+                    e = kwarg(c, 'tx_action')
+                    if e is None:
+                        continue
+                    if norm(e) == f'{var}.action':
+                        continue
+                    if isinstance(e, ast.Name):
+                        asg = [x.id for x in g.nodes if x.kind == 'stmt'
+                               and isinstance(x.ast, ast.Assign)
+                               and norm(x.ast.targets[0]) == e.id
+                               and norm(x.ast.value) == f'{var}.action']
+                        if asg and g.always_after(node.id, asg,
+                                                  exits={k.id}):
+                            continue
+                    ok = False
+            ctx.ob('C08.R5', f'{f.name}:tx_action-forwarded', ok,
+                   f'{f.name} compiles a transaction statement but the '
+                   f'command it returns does not carry that statement\'s '
+                   f'action as tx_action: the unit starts / ends a '
+                   f'transaction without the TRANSACTION capability',
+                   f.loc, sample=f'tx_action={var}.action')
+    if n < 4:
+        raise AnalysisError(f'C08.R5: only {n} migration commands compile a '
+                            f'transaction statement')
